@@ -336,9 +336,31 @@ func c01Prop(t *rapid.T) {
 	lbl := map[string]bool{}
 	fired, crashedAny, pruned, rbOrReplace := false, false, false, false
 	var fp []string
+	// one case in five starts from a long history (revision numbers with two digits: the Kubernetes backends list records
+	// by name, where v10 sorts before v2), built by plain operations that are judged like all others
+	var prefix []*world.Op
+	if rapid.IntRange(0, 4).Draw(t, "longHistory") == 0 {
+		for k, n := 0, rapid.IntRange(8, 11).Draw(t, "prefixLen"); k < n; k++ {
+			op := &world.Op{Kind: "upgrade", DisableHooks: true, Chart: world.ChartSpec{Version: k + 1, Resources: []world.Res{{Kind: "ConfigMap", Name: "a", Variant: k % 3}}}}
+			if k == 0 {
+				op.Kind = "install"
+			}
+			prefix = append(prefix, op)
+		}
+		nops += len(prefix)
+		lbl["long-history"] = true
+	}
 	for i := 0; i < nops; i++ {
-		op := c01GenOp(t, i == 0 || len(w.History()) == 0, i+1)
-		op.Fault = c01GenFault(t, w, op, backend != "memory")
+		var op *world.Op
+		if i < len(prefix) {
+			op = prefix[i]
+		} else {
+			op = c01GenOp(t, i == 0 || len(w.History()) == 0, i+1)
+			if len(prefix) > 0 && op.MaxHistory > 0 && rapid.Bool().Draw(t, "largerLimit") {
+				op.MaxHistory += 4
+			}
+			op.Fault = c01GenFault(t, w, op, backend != "memory")
+		}
 		j.ops = append(j.ops, op)
 		res := w.Run(op)
 		line := fmt.Sprintf("%s => err=%v fired=%v crashed=%v %s", op.Describe(), res.Err != nil, res.Fired, res.Crashed, world.HistString(res.Post))
